@@ -149,7 +149,13 @@ class Monitor:
             due = [o for o in list(mm.buy.values()) + list(mm.sell.values())
                    if o.ttl is not None and o.placed_at + o.ttl < t]
             for o in due:
-                self.viol("C04", "expiry_missing", {"market": mm.name, "order": o.brief(), "now": t})
+                book = market.buy_order_book if o.is_buy else market.sell_order_book
+                still = any(x.order_id == o.oid for x in book.priority_queue)
+                if still:
+                    self.viol("C04", "expiry_missing", {"market": mm.name, "order": o.brief(), "now": t})
+                else:  # it left the book, but no expiry record was written
+                    self.viol("C10", "expiry_not_logged", {"market": mm.name, "order": o.brief(), "now": t})
+                    self.viol("C04", "expiry_not_reported", {"market": mm.name, "order": o.brief(), "now": t})
                 o.status = "expired"
                 mm.drop(o)
         # price state at clock advance
@@ -947,6 +953,8 @@ def _probe_call(self, name, kind, before, obj):
 
 def _probe_altered(self, name, order):
     self.probe("hook_altered_order")
+    for p in self.plugins:
+        p.on_probe_altered(self, name, order)
 
 
 Monitor.on_written = _on_written
@@ -966,6 +974,6 @@ def _noop(self, *a, **k):
     return None
 
 
-for _n in ("setup_failed", "on_written", "on_step_record", "on_processed", "on_consult", "on_returned", "on_callback",
+for _n in ("setup_failed", "on_probe_altered", "on_written", "on_step_record", "on_processed", "on_consult", "on_returned", "on_callback",
            "on_tap", "on_probe_call"):
     setattr(Plugin, _n, _noop)
